@@ -3,13 +3,15 @@ a parent that has imported algopy but never executed an algopy operation."""
 import faulthandler
 import os
 import pickle
+import resource
 import signal
 import sys
 import traceback
 
 from . import codec, engine, env, plan as planmod, refs
 
-RUN_TIMEOUT = int(os.environ.get('VERIF_RUN_TIMEOUT', '120'))
+RUN_TIMEOUT = int(os.environ.get('VERIF_RUN_TIMEOUT', '150'))
+MEM_LIMIT = int(os.environ.get('VERIF_MEM_LIMIT_MB', '6000')) << 20
 
 
 def fork_call(fn, timeout=RUN_TIMEOUT):
@@ -23,6 +25,10 @@ def fork_call(fn, timeout=RUN_TIMEOUT):
             os.close(r)
             signal.signal(signal.SIGALRM, signal.SIG_DFL)
             signal.alarm(timeout)
+            try:
+                resource.setrlimit(resource.RLIMIT_AS, (MEM_LIMIT, MEM_LIMIT))
+            except (ValueError, OSError):
+                pass
             faulthandler.enable()
             try:
                 payload = ('ok', fn())
@@ -46,7 +52,8 @@ def fork_call(fn, timeout=RUN_TIMEOUT):
     _, status = os.waitpid(pid, 0)
     data = b''.join(chunks)
     if status != 0 or not data:
-        raise env.HarnessError('child exited with status %r and %d bytes of output' % (status, len(data)))
+        why = ' (SIGALRM: no result within %d s - a call that never returns?)' % timeout if status == signal.SIGALRM else ''
+        raise env.HarnessError('child exited with status %r and %d bytes of output%s' % (status, len(data), why))
     kind, val = pickle.loads(data)
     if kind == 'err':
         raise env.HarnessError('child raised:\n' + val)
